@@ -150,3 +150,14 @@ impl ChainService {
         Ok(())
     }
 }
+
+#[cfg(feature = "verif-hooks")]
+impl ChainService {
+    pub(crate) fn verif_process_block(&self, lonely_block: LonelyBlock) {
+        self.asynchronous_process_block(lonely_block)
+    }
+
+    pub(crate) fn verif_clean_expired_orphans(&self) {
+        self.orphan_broker.clean_expired_orphans()
+    }
+}
